@@ -49,6 +49,13 @@ type Parser struct {
 	// escape sequence
 	escTimeout *time.Timer
 	mu         sync.Mutex
+	// escGen identifies the ESC the pending timeout belongs to. It changes
+	// whenever more input arrives or another ESC is seen, which cancels a
+	// timeout callback that has not run yet. Protected by mu
+	escGen uint64
+	// done is set when the parser has stopped: nothing may be emitted by the
+	// timeout callback afterwards. Protected by mu
+	done bool
 
 	oscData []rune
 	apcData []rune
@@ -127,6 +134,11 @@ outer:
 			p.mu.Unlock()
 		}
 	}
+	// Stop doesn't wait for a callback which is already running, make sure
+	// it can't emit once we close the channel
+	p.mu.Lock()
+	p.done = true
+	p.mu.Unlock()
 	if p.escTimeout != nil {
 		p.escTimeout.Stop()
 	}
@@ -147,6 +159,12 @@ func (p *Parser) readRune() rune {
 	r, _, err := p.r.ReadRune()
 	if p.escTimeout != nil {
 		p.escTimeout.Stop()
+		// The timer may have fired already with its callback still waiting
+		// to run: more input has arrived, it must not report an Escape
+		// anymore
+		p.mu.Lock()
+		p.escGen += 1
+		p.mu.Unlock()
 	}
 	if r == unicode.ReplacementChar {
 		// If invalid UTF-8, let's read the byte and deliver
@@ -462,11 +480,19 @@ func anywhere(r rune, p *Parser) stateFn {
 			p.exit = nil
 		}
 		p.clear()
+		p.escGen += 1
+		gen := p.escGen
 		p.escTimeout = time.AfterFunc(10*time.Millisecond, func() {
-			p.emit(C0(0x1B))
 			p.mu.Lock()
+			defer p.mu.Unlock()
+			if p.done || gen != p.escGen {
+				// Input arrived or the parser stopped before we got
+				// to run
+				return
+			}
+			p.escGen += 1
+			p.emit(C0(0x1B))
 			p.state = ground
-			p.mu.Unlock()
 		})
 		return escape
 	default:
